@@ -14,7 +14,7 @@ From RU Require Import Base.Prelude Base.Utf8 Base.Utf8Facts Base.Outcome_c15 Mo
   Proofs.ListN Proofs.C02_Enc Proofs.C02_Parts Proofs.C02_Opaque Proofs.C02_Path Proofs.C02_PathL1 Proofs.C02_Reach
   Proofs.C02_AuthParts Proofs.C02_Auth Proofs.C02_AuthWf Proofs.C02_PathSp Proofs.C02_AuthSp Proofs.C02_AuthMain
   Proofs.C02_Hist Proofs.C02_SetQF Proofs.C02_Canon Proofs.C02_SetPort Proofs.C02_JoinTail Proofs.C02_ReachPartial
-  Proofs.C02_Form.
+  Proofs.C02_Form Proofs.C02_SetCred Proofs.C02_SetCredCanon.
 Open Scope N_scope.
 Open Scope list_scope.
 
@@ -56,6 +56,19 @@ Definition C02_statement3 : Prop :=
 Lemma statement3_implies_2 : C02_statement3 -> C02_statement.
 Proof. intros H dbg hp hpo hd HOK u Hr. exact (H dbg hp hpo hd HOK u (Reachable2_3 dbg hp hpo hd u Hr)). Qed.
 
+(* the mutators of C02_Reach.op for which L2 is proved on the four canonical forms *)
+Definition canon_op (o : op) : bool :=
+  match o with OSetFragment _ | OSetQuery _ | OSetPort _ | OSetPassword _ | OSetUsername _ => true | _ => false end.
+
+Lemma tail_op_canon o : tail_op o = true -> canon_op o = true.
+Proof. destruct o; try discriminate; reflexivity. Qed.
+
+Lemma canon_op_not_known dbg hp hpo hd u o : canon_op o = true -> known_step2 dbg hp hpo hd u o = false.
+Proof.
+  destruct o; try discriminate; intros _; unfold known_step2, known_step, Known_F_C03_5, Known_F_C02_3, Known_F_C02_2,
+    Known_F_C02_8, Known_F_C02_4, Known_F_C02_9; cbn [is_host_or_path_op]; rewrite ?andb_false_r; reflexivity.
+Qed.
+
 Section ReachC2.
 Variable dbg : bool.
 Variable hp hpo : list N -> result host.
@@ -74,7 +87,7 @@ Inductive ReachC2 : url -> Prop :=
     (ovr = None \/ st_is_special (scheme_type_of (b_scheme b)) = false) ->
     parse_url dbg hp hpo hd ovr (Some b) input = POk u -> ReachC2 u
 | RC2_step u o u' :
-    ReachC2 u -> tail_op o = true -> op_args_ok o -> apply_op dbg hp hpo hd u o = Some u' ->
+    ReachC2 u -> canon_op o = true -> op_args_ok o -> apply_op dbg hp hpo hd u o = Some u' ->
     nlen (ser u') <= U32_MAX_P -> ReachC2 u'
 | RC2_qpm u ops u' :
     ReachC2 u -> Forall op_ok ops -> query_pairs_session dbg u ops = Some u' ->
@@ -85,7 +98,7 @@ Proof.
   induction 1 as [ovr input u Hu Hn Hov Hp | ovr b input u Hr IH Hu Ht Hov Hp | u o u' Hr IH Ht Ha Ho Hb].
   - exact (RC2_parse ovr input u Hu Hn Hov Hp).
   - exact (RC2_join ovr b input u IH Hu Ht Hov Hp).
-  - exact (RC2_step u o u' IH Ht Ha Ho Hb).
+  - exact (RC2_step u o u' IH (tail_op_canon o Ht) Ha Ho Hb).
 Qed.
 
 Theorem ReachC2_Canon u : ReachC2 u -> Canon hp hpo hd u.
@@ -99,6 +112,10 @@ Proof.
     + exact (set_query_Canon dbg hp hpo hd HRT u q u' IH Ha Ho Hb).
     + destruct (option_map_fst_some _ _ Ho) as [s Es].
       exact (set_port_Canon dbg hp hpo hd u p u' s IH Ha Es Hb).
+    + destruct (option_map_fst_some _ _ Ho) as [s Es].
+      exact (set_password_Canon dbg hp hpo hd u p u' s IH Ha Es Hb).
+    + destruct (option_map_fst_some _ _ Ho) as [s0 Es].
+      exact (set_username_Canon dbg hp hpo hd u s u' s0 IH Ha Es Hb).
   - exact (qpm_Canon dbg hp hpo hd HRT u ops u' IH Hops Hs Hb).
 Qed.
 
@@ -114,7 +131,7 @@ Proof.
     apply (Canon_not_file_drive hp hpo hd). exact (parse_Canon dbg hp hpo hd HRT ovr input u HAb Hu Hn Hov Hp).
   - apply (R3_join dbg hp hpo hd ovr b input u IH Hu Hp).
     apply (Canon_not_file_drive hp hpo hd). apply ReachC2_Canon. exact (RC2_join ovr b input u Hr Hu Ht Hov Hp).
-  - apply (R3_step dbg hp hpo hd u o u' IH Ha (tail_op_not_known dbg hp hpo hd u o Ht) Ho).
+  - apply (R3_step dbg hp hpo hd u o u' IH Ha (canon_op_not_known dbg hp hpo hd u o Ht) Ho).
     apply (Canon_not_file_drive hp hpo hd). apply ReachC2_Canon. exact (RC2_step u o u' Hr Ht Ha Ho Hb).
   - apply (R3_qpm dbg hp hpo hd u ops u' IH Hops Hs).
     apply (Canon_not_file_drive hp hpo hd). apply ReachC2_Canon. exact (RC2_qpm u ops u' Hr Hops Hs Hb).
@@ -141,3 +158,17 @@ Example qpm_example :
                  && match parse_url true ex_hp ex_hp ex_hd None None (ser u) with POk v => url_eqb v u | _ => false end
      | None => false end = true.
 Proof. vm_compute. split; reflexivity. Qed.
+
+(* a history with the two credential setters: a://h.x/p -> set_username("u s") -> set_password("p:w") ->
+   set_username("") -> set_password(None) gives a://u%20s@h.x/p, a://u%20s:p%3Aw@h.x/p, a://:p%3Aw@h.x/p, a://h.x/p *)
+Example cred_example :
+  match ex_hist "a://h.x/p" [OSetUsername (B "u s")] with Some u => list_eqb (ser u) (B "a://u%20s@h.x/p") | None => false end = true
+  /\ match ex_hist "a://h.x/p" [OSetUsername (B "u s"); OSetPassword (Some (B "p:w"))] with
+     | Some u => list_eqb (ser u) (B "a://u%20s:p%3Aw@h.x/p") | None => false end = true
+  /\ match ex_hist "a://h.x/p" [OSetUsername (B "u s"); OSetPassword (Some (B "p:w")); OSetUsername []] with
+     | Some u => list_eqb (ser u) (B "a://:p%3Aw@h.x/p")
+                 && match parse_url true ex_hp ex_hp ex_hd None None (ser u) with POk v => url_eqb v u | _ => false end
+     | None => false end = true
+  /\ match ex_hist "a://h.x/p" [OSetUsername (B "u s"); OSetPassword (Some (B "p:w")); OSetUsername []; OSetPassword None] with
+     | Some u => list_eqb (ser u) (B "a://h.x/p") | None => false end = true.
+Proof. vm_compute. repeat split. Qed.
